@@ -803,9 +803,11 @@ impl TypeLayout {
     }
 
     pub fn supports_equ(&self) -> bool {
-        let me = self.get_type_recursively();
+        let me = self.disregard_distractors(false);
 
         match me {
+            // a present `T?` is compared as a `T`
+            TypeLayout::Optional(Some(ty)) => ty.supports_equ(),
             TypeLayout::Class(..) => false,
             TypeLayout::Function(..) => false,
             TypeLayout::Module(..) => false,
